@@ -63,7 +63,7 @@ def check_c15(prop, tier, seed):
                               'from prior %s, add_parameter(%s) -> %s leaves %s: %s fails (%d edges in this class)' % (
                                   [(d['key'], d['kind']) for d in pre],
                                   {k: v for k, v in rec['event'].items() if k not in ('name', 'outcome') and v not in ('', 0)},
-                                  rec['event']['outcome'], [(d['key'], d['kind']) for d in rec['decl']], ns,
+                                  rec['event'].get('outcome', '(state reached)'), [(d['key'], d['kind']) for d in rec['decl']], ns,
                                   len([1 for _, n2 in mine if '+'.join(n2) == key])),
                               dict(pre=pre, event=rec['event'], post=rec['decl'], obs=rec['obs']))
             if not mine:
